@@ -228,6 +228,8 @@ def run(ctx):
     for i in range(n):
         kind = r.choice(["base", "lib", "cli"])
         pw = None if r.random() < .35 else "".join(chr(r.randrange(32, 127)) for _ in range(r.randint(0, 12)))
+        if i % 9 == 4:
+            pw = ""           # an explicitly given EMPTY password is a password (nobody is to be asked for another one)
         cases.append((kind, pw, gen_params(r)))
     if ctx.tier == "thorough":
         # all 10^6 numeric banners through the real _handleInitial (exhaustive): reply = highest of 3.3/3.7/3.8 <= banner
